@@ -156,7 +156,8 @@ class KDTree:
                         n_found -= 1
             else:
                 node = self.nodes[node_id]
-                furthest_so_far = -found.front.priority if not found.empty() else float("inf")
+                # a child can only be pruned against the worst candidate once k candidates are held
+                furthest_so_far = -found.front.priority if (n_found>=k and not found.empty()) else float("inf")
                 dist_left = self.nodes[node.left].bb.distance(pt)
                 dist_right = self.nodes[node.right].bb.distance(pt)                
                 for dist,child in sorted([(dist_left, node.left), (dist_right,node.right)]):
